@@ -11,7 +11,7 @@ CLAIM = {
     "text": "Lean theorems over ALL expression trees (any depth): the model of the compile-time checks (arity and per-parameter checks of check_well_typedness, the "
             "non-comparable-operand check, the must-be-compared checks now applied at every logical position, index/slice range checks) accepts a standard expression exactly "
             "when it is well-typed under RFC 9535 2.4.3 (gate_sound, gate_complete, by induction on the tree), and accepts an index or slice bound exactly when it lies within "
-            "the configured integer range, for every configuration of the limits (range_gate). The gate model is tied to parse.py/env.py by compiling rendered trees: all trees "
+            "the configured integer range, for every configuration of the limits (range_gate); `<>` is held to the rules `!=` is held to (lg_gated_as_ne) and the translated COMPARISON_OPERATORS / function registry are the ones the model assumes (comparison_table_ok, registry_is_what_is_modelled). The gate model is tied to parse.py/env.py by compiling rendered trees: all trees "
             "of depth <= 2 over the five functions are enumerated and classified by the Lean typing judgment; boundary integers under default and narrowed limits; leading "
             "zeros, empty and comma-terminated lists.",
     "note": "Trusted: Lean kernel; the gate model JP.Typing and the RFC typing judgment JP.Rfc.wt*; the renderer harness/qgen.py; 'never evaluated' holds by construction "
